@@ -336,6 +336,12 @@ func (ex *Exec) flatten(prefix string, v Value, t types.Type, depth int, emit fu
 				k = "observe-sdec"
 			}
 			ex.events = append(ex.events, Event{Kind: k, ID: prefix, Ts: []*Term{x.sym.val}})
+		case symConcat:
+			if bs, ok := ex.asBytes(x); ok {
+				ex.events = append(ex.events, Event{Kind: "observe-bytes", ID: prefix, Ts: bs})
+			} else {
+				emit(prefix, "<opaque-string>", nil)
+			}
 		default:
 			emit(prefix, "<opaque-string>", nil)
 		}
